@@ -223,4 +223,79 @@ def run(ctx: Ctx):
                 key = f"{pr}-printer::{g.name}.{mname}::interpolation"
                 if pr == "jax" and g.name != "JaxPrinter":
                     continue
+                from . import util
+
+                val = util.value_of(ctx, f)
+                if not _av.has_unk(val):
+                    # judged on the value the method returns (helpers expanded, locals resolved)
+                    bad = sorted(set(raw_holes(val)))
                 ctx.check(not bad, "R19.e", key, "only printed text is interpolated", f"{g.name}.{mname} interpolates {bad} directly into the emitted code instead of printing it: sympy's renaming of reserved words (lambda -> lambda_) is bypassed at this site while other sites still rename", f.where())
+
+
+SAFE_CALLS = {"_print", "_module_format", "float", "str", "repr", "int", "doprint", "len", "format"}
+
+
+def raw_holes(v, safe_binders=frozenset()) -> list[str]:
+    """Terms interpolated into emitted text that did not go through the printer."""
+    out: list[str] = []
+
+    def safe(x, sb) -> bool:
+        t = x[0]
+        if t == "c":
+            return True
+        if t in ("call", "mcall"):
+            tail = (x[1] if t == "call" else x[2]).split(".")[-1]
+            if tail in SAFE_CALLS or tail.startswith("_print_"):
+                return True
+            return False
+        if t == "sym":
+            return x[1] in ("func", "relop") or x[1].endswith((".i", ".j"))
+        if t == "bv":
+            return x[1] in sb
+        if t == "acc":
+            return True
+        if t == "sub":
+            if x[1][0] == "dict":
+                return all(safe(val, sb) for _, val in x[1][1])
+            return safe(x[1], sb)
+        if t == "slice":
+            return safe(x[1], sb)
+        if t == "join":
+            return safe(x[2], sb)
+        if t == "list":
+            return all(safe(i[1] if i[0] == "spread" else (i[2] if i[0] == "when" else i), sb) for i in x[1])
+        if t == "comp":
+            sb2 = sb | ({x[1]} if safe(x[2], sb) else set())
+            return all(safe(i, sb2) for i in x[3])
+        if t == "fold":
+            sb2 = sb | ({x[1]} if safe(x[2], sb) else set())
+            return safe(x[3], sb) and safe(x[4], sb2)
+        if t == "if":
+            return safe(x[2], sb) and safe(x[3], sb)
+        if t == "s":
+            return all(p_[0] == "lit" or safe(p_[1], sb) for p_ in x[1])
+        if t == "op":
+            return safe(x[2], sb) and safe(x[3], sb)
+        return False
+
+    def walk(x, sb):
+        if not isinstance(x, tuple) or not x:
+            return
+        t = x[0]
+        if t == "s":
+            for p_ in x[1]:
+                if p_[0] == "h":
+                    if not safe(p_[1], sb):
+                        out.append(_av.show(p_[1])[:80])
+                    walk(p_[1], sb)
+            return
+        if t in ("comp", "fold"):
+            sb2 = sb | ({x[1]} if safe(x[2], sb) else set())
+            for y in x[2:]:
+                walk(y, sb2)
+            return
+        for y in x:
+            walk(y, sb)
+
+    walk(v, frozenset(safe_binders))
+    return out
